@@ -652,6 +652,7 @@ const (
 	notLeaderFlag                                     // notLeaderFlag indicates the replica is already tried, but the received not leader error.
 	serverIsBusyFlag                                  // serverIsBusyFlag indicates the replica is already tried, but the received server is busy error.
 	suspectNotLeaderFlag                              // suspectNotLeaderFlag indicates the cached leader keeps rejecting leader reads with ServerIsBusy(0), so it is suspected to have lost leadership (tikv/client-go#2028).
+	leaderHintedAgainFlag                             // leaderHintedAgainFlag indicates the replica was named as leader by a NotLeader hint after it had itself answered NotLeader.
 )
 
 func (r *replica) addFlag(flag uint8) {
